@@ -547,6 +547,10 @@ CmpParsedDur(p, r, tag) ==
   ELSE IF p.k # "dur" THEN << <<tag \o "-kind", p.k>> >>
   ELSE V(tag \o "-years-months", <<p.years, p.months>> = <<BNToInt(r.y), BNToInt(r.mo)>>, <<BNToInt(r.y), BNToInt(r.mo)>>)
        \o V(tag \o "-length", RestOfP(p) = r.rest, r.rest)
+\* where the fraction stands: a fraction of SECONDS with up to six digits is a plain microsecond count
+FracClass(r) == CASE r.fracrank = 0 -> "none"
+                  [] r.fracrank = 7 -> (IF r.fraclen <= 6 THEN "sec-1-6" ELSE "sec-7+")
+                  [] r.fracrank = 6 -> "min" [] r.fracrank = 5 -> "hour" [] r.fracrank = 4 -> "day" [] r.fracrank = 3 -> "week"
 J_dur_parse(e) ==
   LET r == RecDuration(e.a.text)  p == e.post IN
   IF ~r.ok
@@ -560,7 +564,7 @@ J_dur_parse(e) ==
                                    \o V("py-must-reject-too-large", p.py.k = "exc", "not representable")
                                    \o V("rs-must-reject-too-large", p.rs.k = "exc", "not representable"))
   ELSE IF r.tie THEN R(<<"half-microsecond-tie">>, <<>>)           \* "rounded" names no tie rule (soundness rule 2)
-  ELSE R(<<"valid", e.a.cls, "frac", N(r.fraclen), "ncomp", N(r.ncomp), "wide", B(r.maxdigits >= 10)>>,
+  ELSE R(<<"valid", e.a.cls, "frac", N(r.fraclen), "frac-class", FracClass(r), "ncomp", N(r.ncomp), "wide", B(r.maxdigits >= 10)>>,
          V("driver-class", e.a.cls = "valid", "the driver labelled a well-formed duration as ill-formed")
          \o CmpParsedDur(p.top, r, "top") \o CmpParsedDur(p.py, r, "py") \o CmpParsedDur(p.rs, r, "rs")
          \o (IF p.top.k = "dur" THEN V("top-class", p.top.cls = "Duration", "Duration") ELSE <<>>))
